@@ -170,7 +170,7 @@ func TestVerifProber(t *testing.T) {
 	// seeded sweep of arbitrary (base <= max, retries): results in microseconds
 	r := rand.New(rand.NewSource(seed))
 	for k := 0; k < nsweep; k++ {
-		base := 1 + r.Intn(2000000)         // up to 2 s in microseconds
+		base := 1 + r.Intn(2000000)           // up to 2 s in microseconds
 		max := base + r.Intn(1500000000-base) // up to 25 min
 		if k%5 == 0 {
 			max = base
